@@ -238,24 +238,7 @@ func rulesC05(e *Engine, r *Report) {
 		r.Check(ok, "R05.6", "stage.(*Stage).GetFileStatus: cache refilled back to the polled file's send time", e.Pos(fn.Pos()),
 			"GetFileStatus no longer refills the cache from the time the sender gave", 1)
 	}
-	if fn := needFn(e, r, "R05.6", "stage.(*Stage).buildCache"); fn != nil {
-		// the refill never overwrites a live entry
-		cl := e.closureOfCall(fn, "invoke(sts.ReceiveLogger.Parse)", 0)
-		if cl == nil {
-			r.Unresolved("R05.6", "closure passed to ReceiveLogger.Parse in buildCache")
-		} else {
-			cls := labeler(C("!§.cache[§]#1", "absent"))
-			n := 0
-			Instrs(cl, func(in ssa.Instruction) {
-				if mu, ok := in.(*ssa.MapUpdate); ok {
-					n++
-					e.Guarded(r, "R05.6", e.ShortName(cl)+": cache insert from the log", cl, only(mu), cls,
-						func(l LabelSet) bool { return l.Has("absent") }, "no entry for that path yet")
-				}
-			})
-			r.Min("R05.6", "cache inserts in the log refill", n, 1)
-		}
-	}
+	e.checkRefillKeepsLive(r, "R05.6")
 
 	// ---------------------------------------------------------------- R05.7
 	r.Rule("R05.7", "the sender asks before re-sending: in the send loop every path from a failed Transmitter call back to the next Transmitter call passes handleSendError with the same payload and the count the answer carried")
@@ -290,6 +273,29 @@ func rulesC05(e *Engine, r *Report) {
 			func(l LabelSet) bool { return !l.Has("evicted") || l.Has("claimUpdated") }, "store to Stage.cacheTime on every path that evicts")
 	}
 	r.Min("R05.8", "functions evicting from the receive cache", nEv, 1)
+	// ---------------------------------------------------------------- R05.10
+	r.Rule("R05.10", "the refill reads every day of the range: buildCache hands Parse the range [from, now]; Parse offers every day file of the range through each(), which visits the day of the current position BEFORE testing the range's end (so today's records - the closing day - are read also when `from` has a later time of day than now), advances by one day, and shares the path function with the writer (as R18.5)")
+	e.checkDayLoop(r, "R05.10")
+	if fn := needFn(e, r, "R05.10", "stage.(*Stage).buildCache"); fn != nil {
+		ps := e.findInstrs(fn, "invoke(sts.ReceiveLogger.Parse)(p0.logger, §, p1, var(cacheTime))", false)
+		r.Check(len(ps) == 1, "R05.10", "stage.(*Stage).buildCache: Parse(handler, from, <cache start or now>)", e.Pos(fn.Pos()), "the refill does not read the log from the time asked for up to the cache's start", 1)
+		var vals []string
+		for _, in := range e.findInstrs(fn, "store(var(cacheTime) = §)", false) {
+			vals = append(vals, e.Canon(in.(*ssa.Store).Val))
+		}
+		sort.Strings(vals)
+		r.Check(len(vals) == 2 && vals[0] == "call(time.Now)()" && vals[1] == "p0.cacheTime", "R05.10", "stage.(*Stage).buildCache: the range ends at the cache's start time, or now when it was never built", e.Pos(fn.Pos()),
+			"the end of the refill range is "+strings.Join(vals, " | "), 1, vals...)
+	}
+	if fn := needFn(e, r, "R05.10", "log.(*FileIO).Parse"); fn != nil {
+		ea := e.findInstrs(fn, "call(log.(*rollingFile).eachLine)(p0.logger, §, p2, p3)", false)
+		r.Check(len(ea) == 1, "R05.10", "log.(*FileIO).Parse: every line of the caller's range", e.Pos(fn.Pos()), "Parse does not iterate the caller's range", 1)
+		if el := needFn(e, r, "R05.10", "log.(*rollingFile).eachLine"); el != nil {
+			ec := e.findInstrs(el, "call(log.(*rollingFile).each)(p0, §, p2, p3)", false)
+			r.Check(len(ec) == 1, "R05.10", "log.(*rollingFile).eachLine: each(reader, start, stop)", e.Pos(el.Pos()), "the line reader is not run over the day files of the caller's range", 1)
+		}
+	}
+
 	// ---------------------------------------------------------------- R05.9
 	r.Rule("R05.9", "the log refill is skipped only when the cache provably covers the time asked for: buildCache returns without consulting the log only for a zero `from`, or when the cache start time is NON-ZERO and not after `from`; a never-built cache (zero start time, as after a restart) always refills")
 	if fn := needFn(e, r, "R05.9", "stage.(*Stage).buildCache"); fn != nil {
@@ -457,4 +463,37 @@ func (e *Engine) checkPartReceived(r *Report, rule string, sc stageConsts) {
 				"the descriptor compared with the record is not built from the queried part: "+strings.Join(vals, " | "), 1, vals...)
 		}
 	}
+}
+
+// checkRefillKeepsLive: the cache refill from the receive log never replaces
+// an entry that is already there (a live entry carries the verdict of the
+// version in flight: failed / received / validated; a log record is about an
+// older delivery of that name).  The look-up that guards the insert must be
+// on the same map and the SAME key as the insert.  Shared by R05.6, R01.12
+// and R02.9.
+func (e *Engine) checkRefillKeepsLive(r *Report, rule string) {
+	fn := needFn(e, r, rule, "stage.(*Stage).buildCache")
+	if fn == nil {
+		return
+	}
+	cl := e.closureOfCall(fn, "invoke(sts.ReceiveLogger.Parse)", 0)
+	if cl == nil {
+		r.Unresolved(rule, "closure passed to ReceiveLogger.Parse in buildCache")
+		return
+	}
+	n := 0
+	Instrs(cl, func(in ssa.Instruction) {
+		mu, ok := in.(*ssa.MapUpdate)
+		if !ok {
+			return
+		}
+		n++
+		m, k := e.Canon(mu.Map), e.Canon(mu.Key)
+		cls := labeler(C("!"+m+"["+k+"]#1", "absent"))
+		e.Guarded(r, rule, e.ShortName(cl)+": cache insert from the log", cl, only(mu), cls,
+			func(l LabelSet) bool { return l.Has("absent") }, "no entry under that very key ("+shorten(k)+") yet")
+		r.Check(strings.HasPrefix(k, "call(filepath.Join)([^p0.rootDir, "), rule, e.ShortName(cl)+": the refill files entries under <stage root>/<name>, the key every other cache user reads", e.InstrPos(in),
+			"log records are cached under a key other than the staged path: "+k, 1, k)
+	})
+	r.Min(rule, "cache inserts in the log refill", n, 1)
 }
